@@ -67,6 +67,8 @@ class Engine:
         self.notes = {}
         self.on_path_end = None
         self._decided = {}
+        self.vc_dump = None      # list collecting SMT-LIB2 texts of discharged VCs (second-solver cross-check)
+        self.vc_dump_max = 0
         self.lemmas = []         # defining constraints used only when discharging VCs (e.g. y*y == x for sqrt):
                                  # branch feasibility ignores them (over-approximates the paths: sound)
         self.prefer = []         # optional constraints for nicer counterexample models (never affect verdicts)
@@ -182,6 +184,11 @@ class Engine:
             raise Violation(kind, self.solver.model(), info)
         if r == z3.unsat:
             self.vcs += 1
+            if self.vc_dump is not None and len(self.vc_dump) < self.vc_dump_max:
+                s2 = z3.Solver()
+                s2.add(*self.solver.assertions())
+                s2.add(neg)
+                self.vc_dump.append(s2.to_smt2())
             return
         # stage 2: fresh solver, value propagation, then nlsat
         t0 = time.time()
